@@ -10,8 +10,8 @@ META = {
     "level": "model_checking",
     "text": "PickerWrapper.tla models every atomic step of pickerWrapper.pick (load generation, wait/park on the generation "
             "channel, Pick, getReadyTransport) and updatePicker (Swap, then close of the old channel) with concurrent picks "
-            "(fail-fast and wait-for-ready), all five picker result kinds, subchannel state flips and context cancellation; "
-            "TLC checks I_Fresh, I_ReadyOnly, I_BlockNotFail, I_Wake and the Done-on-not-ready clause exhaustively with four "
+            "(fail-fast and wait-for-ready), all five picker result kinds, re-publication of the same stateful picker object, subchannel state flips and context cancellation; "
+            "TLC checks I_Fresh, I_ReadyOnly, I_BlockNotFail, I_Wake and the Done-on-not-ready clause exhaustively with five "
             "negative controls; the transitions of bounded scopes are forced onto real goroutines calling a real pickerWrapper "
             "(gated at verifhook points inside a testing/synctest bubble, so a goroutine parked in pick's select is told from "
             "one that arrived at a hook), the private state is compared after every step, and all recorded traces are "
@@ -28,13 +28,13 @@ ALL = ["ok", "notready", "nosc", "status", "err"]
 CODES = [[14, 5, 8], [10, 7, 16], [8, 9, 13]]
 
 
-def cfg_text(rpcs, ff, canc, maxgen, kinds, flips):
+def cfg_text(rpcs, ff, canc, maxgen, kinds, flips, reswap=False):
     def s(xs):
         return "{" + ", ".join('"%s"' % x for x in xs) + "}"
-    return ("CONSTANTS\nRpcs = %s\nFailFast = %s\nCancellable = %s\nMaxGen = %d\nKinds = %s\nMaxFlips = %d\nMutant = 0\n"
+    return ("CONSTANTS\nRpcs = %s\nFailFast = %s\nCancellable = %s\nMaxGen = %d\nKinds = %s\nMaxFlips = %d\nReswap = %s\nMutant = 0\n"
             "INIT Init\nNEXT Next\nINVARIANT I_Fresh\nINVARIANT I_ReadyOnly\nINVARIANT I_BlockNotFail\nINVARIANT I_Wake\n"
             "INVARIANT I_DoneNotReady\nINVARIANT I_NoStaleWait\nCHECK_DEADLOCK FALSE\n"
-            % (s(rpcs), s(ff), s(canc), maxgen, s(kinds), flips))
+            % (s(rpcs), s(ff), s(canc), maxgen, s(kinds), flips, "TRUE" if reswap else "FALSE"))
 
 
 def make_step_of(rpcs):
@@ -45,7 +45,7 @@ def make_step_of(rpcs):
         exp = {"pc": ",".join(sorted("%s=%s" % (r, st["pc"][r]) for r in rpcs)),
                "cur": st["cur"], "upc": st["upc"],
                "closed": ",".join(str(g) for g in sorted(st["closedG"]["$set"]))}
-        if name in ("swap", "close"):
+        if name in ("swap", "reswap", "close"):
             return {"t": "u", "p": name, "arg": arg or "", "exp": exp}
         if name in ("cancel", "flip"):
             return {"t": "env", "p": name, "arg": arg, "exp": exp}
@@ -104,6 +104,7 @@ def run(ctx):
     ctx.neg("PickerWrapper", "PickerWrapperNeg2.cfg", expect="I_DoneNotReady", workers=2)
     ctx.neg("PickerWrapper", "PickerWrapperNeg3.cfg", expect="I_ReadyOnly", workers=2)
     ctx.neg("PickerWrapper", "PickerWrapperNeg4.cfg", expect="I_BlockNotFail", workers=2)
+    ctx.neg("PickerWrapper", "PickerWrapperNeg5.cfg", expect="I_Wake", workers=2)
     binary = ctx.go_build(".", name="c32", only=r"zz_verif_c32_")
 
     # (b)+(c) every transition of the bounded scopes forced onto real goroutines
@@ -116,6 +117,9 @@ def run(ctx):
         # one fail-fast pick, cancellation racing with the wake-up
         ("g3", dict(rpcs=["a"], ff=["a"], canc=["a"], maxgen=2, kinds=ALL, flips=1), ctx.pick(800, None)),
     ]
+    # the LB policy re-publishes the SAME (stateful) picker object whose result has changed: still a publication
+    scopes.append(("g5", dict(rpcs=["a"], ff=[], canc=[], maxgen=ctx.pick(2, 3), kinds=["nosc", "notready", "ok", "err"], flips=0,
+                              reswap=True), ctx.pick(600, None)))
     if not ctx.quick():
         scopes.append(("g4", dict(rpcs=["a", "b"], ff=["a"], canc=["b"], maxgen=2, kinds=["ok", "notready", "nosc", "err"],
                                   flips=1), 12000))
